@@ -156,6 +156,15 @@ def py_valid_abs(parents, payloads):
         return out
 
     used, pend, closed = set(), {}, False
+    streams = []  # (path, first streamed index) of every stream announced so far
+
+    def cut(qp, ap):
+        for sp, start in streams:
+            if len(qp) <= len(sp) < len(ap) and tuple(sp[:len(qp)]) == tuple(qp) and tuple(ap[:len(sp)]) == tuple(sp):
+                kx = ap[len(sp)]
+                if kx % 2 == 0 and kx // 2 >= start:
+                    return True
+        return False
     for k, p in enumerate(payloads):
         if closed:
             return False, False, f"payload {k} after hasNext=false"
@@ -165,6 +174,8 @@ def py_valid_abs(parents, payloads):
                 return False, False, f"payload {k}: id {i} announced twice / reused"
             used.add(i)
             pend[i] = {"label": lab, "stream": st, "next": nx, "path": tuple(path)}
+            if st:
+                streams.append((tuple(path), nx))
             new.append(i)
         for e in p["incr"]:
             i = e[1]
@@ -197,7 +208,8 @@ def py_valid_abs(parents, payloads):
             for j, q in pend.items():
                 if j == i or q["stream"]:
                     continue
-                if q["label"] in anc and tuple(a["path"][:len(q["path"])]) == tuple(q["path"]):
+                if q["label"] in anc and tuple(a["path"][:len(q["path"])]) == tuple(q["path"]) \
+                        and not cut(q["path"], a["path"]):
                     return False, False, f"payload {k}: fragment id {i} announced while enclosing id {j} is pending"
         if not p["has_next"]:
             if pend:
@@ -592,7 +604,7 @@ def part_e2e(ck, m, tier):
         ck.degraded.append(f"end-to-end part skipped: schema did not build: {e!r}")
         return
     quick = tier == "quick"
-    limit = 12 if quick else 150
+    limit = 40 if quick else 300
     t0 = time.time()
     budget = 45 if quick else 420
     cases, metas = [], []
@@ -672,7 +684,7 @@ class FakePath:
 
 class FGroup:
     def __init__(self, gid, parent, path):
-        self.gid, self.parent, self.path, self.label = gid, parent, FakePath(path), f"g{gid}"
+        self.gid, self.parent, self.path, self.label = gid, parent, FakePath([2 * x + 1 for x in path]), f"g{gid}"
 
     def __repr__(self):
         return f"G{self.gid}"
@@ -680,7 +692,7 @@ class FGroup:
 
 class FStream:
     def __init__(self, sid, queue):
-        self.sid, self.queue, self.path, self.label, self.initial_count = sid, queue, FakePath([sid]), f"s{sid}", 0
+        self.sid, self.queue, self.path, self.label, self.initial_count = sid, queue, FakePath([1, 2 * sid + 1]), f"s{sid}", 0
 
     def __repr__(self):
         return f"S{self.sid}"
@@ -892,7 +904,7 @@ class RealWQ:
         gobjs = [self.group(x) for x in tg]
         longest = max((gpath(self.g["parents"], x) for x in tg), key=len)
         EGV = self.api.get("ExecutionGroupValue")
-        val = EGV(gobjs, list(longest) + ["x"], {"t": tid}, None) if EGV else ("task", tid)
+        val = EGV(gobjs, [2 * x + 1 for x in longest] + ["x"], {"t": tid}, None) if EGV else ("task", tid)
         return self.api["WorkResult"](val, self.work(w))
 
 
@@ -1116,8 +1128,8 @@ def part_wq(ck, m, tier):
         ck.degraded.append("direct WorkQueue correspondence skipped: " + why)
         return
     quick = tier == "quick"
-    ngraphs = 140 if quick else 1200
-    per_graph = 10 if quick else 120
+    ngraphs = 500 if quick else 3000
+    per_graph = 20 if quick else 150
     max_events = 6 if quick else 7
     t0 = time.time()
     budget = 40 if quick else 500
@@ -1509,7 +1521,7 @@ def part_siq(ck, m, tier):
     scripts = [s for s in common.strings_upto(alphabet, n) if valid_siq_script(s)]
     if quick:
         ck.rng.shuffle(scripts)
-        scripts = scripts[:700]
+        scripts = scripts[:2500]
     elif len(scripts) > 25000:
         ck.rng.shuffle(scripts)
         scripts = scripts[:25000]
